@@ -629,8 +629,10 @@ pub fn run(opts: &Opts) -> i32 {
             let _ = std::fs::remove_dir_all(&dir);
         }
     }
+    // which redundant parentheses are dropped (C12): grammar table and elision against the Lean model
+    let grouping_hung = only == "c12" && crate::grouping::stream(opts, &mut sink);
     sink.finish();
-    if !hung.is_empty() {
+    if !hung.is_empty() || grouping_hung {
         // abandoned worker threads are still spinning
         std::process::exit(0);
     }
